@@ -64,15 +64,22 @@ class StreamControl:
     def stop_all_streams(self, error_code=ErrorCode.CANCELED, data=b''):
         logger().debug('Stopping all streams')
         for stream_id, stream in list(self._streams.items()):
-            if isinstance(stream, Requester):
-                frame = ErrorFrame()
-                frame.stream_id = stream_id
-                frame.error_code = error_code
-                frame.data = data
-                stream.frame_received(frame)
+            # A failing subscriber or publisher must not keep the remaining streams from being stopped.
+            try:
+                if isinstance(stream, Requester):
+                    frame = ErrorFrame()
+                    frame.stream_id = stream_id
+                    frame.error_code = error_code
+                    frame.data = data
+                    stream.frame_received(frame)
+            except Exception:
+                logger().error('Error while failing stream %s', stream_id, exc_info=True)
 
-            if isinstance(stream, Disposable):
-                stream.dispose()
+            try:
+                if isinstance(stream, Disposable):
+                    stream.dispose()
+            except Exception:
+                logger().error('Error while disposing stream %s', stream_id, exc_info=True)
 
             self.finish_stream(stream_id)
 
